@@ -10,10 +10,13 @@ static void build(void) {
     g_stashq = v_mkqueue(vin_stashq_len); g_mod->stashed = g_stashq;
     g_recvs = malloc(sizeof *g_recvs); __CPROVER_assume(g_recvs != NULL); g_recvs->len = vin_recvs_len; g_recvs->top = vin_recvs_len ? (void *)v_become_evt : NULL; g_mod->recvs = g_recvs;
     g_qit = malloc(sizeof *g_qit); __CPROVER_assume(g_qit != NULL); g_qit->q = NULL; g_qit->idx = 0; g_qit->removed = false;
+    g_modules = malloc(sizeof *g_modules); __CPROVER_assume(g_modules != NULL); g_modules->len = 1; g_modules->internal = 0; g_ctx->modules = g_modules;
+    g_bound = malloc(sizeof *g_bound); __CPROVER_assume(g_bound != NULL); g_bound->len = 0; g_mod->bound_mods = g_bound;
+    g_thresh = malloc(sizeof *g_thresh); __CPROVER_assume(g_thresh != NULL); g_thresh->len = 0; g_thresh->internal = 0; g_mod->srcs[M_SRC_TYPE_THRESH] = g_thresh;
     g_mod->hook.on_evt = v_on_evt; g_mod->hook.on_start = v_on_start; g_mod->hook.on_stop = v_on_stop; g_mod->hook.on_eval = v_on_eval;
     g_mod->name = "m"; g_mod->stats.action_ctr = vin_action_ctr; g_mod->stats.recv_msgs = vin_recv_msgs; g_mod->stats.sent_msgs = vin_sent_msgs;
     g_ctx->state = vin_ctx_state ? M_CTX_LOOPING : M_CTX_IDLE; g_ctx->stats.running_modules = vin_running; g_ctx->quit = vin_quit & 1;
     g_mctx = vin_mctx_kind == 0 ? g_ctx : (vin_mctx_kind == 1 ? NULL : &g_foreign_ctx);   /* own thread / no context on this thread / foreign thread */
-    g_ctx->curr_mod = NULL; g_ctx->flags = (m_ctx_flags)vin_cflags; g_ctx->finalized = vin_finalized & 1; g_ctx->name = "c";
+    g_ctx->curr_mod = vin_has_curr ? g_mod : NULL;      /* called from outside, or re-entrantly from inside one of the module's own callbacks */ g_ctx->flags = (m_ctx_flags)vin_cflags; g_ctx->finalized = vin_finalized & 1; g_ctx->name = "c";
 }
 
